@@ -211,7 +211,17 @@ impl Exec {
                         } else {
                             // the commit may or may not have taken effect: stays admissible
                             self.note_error(&e.to_string());
-                            self.disk.marker(Marker::CommitFailed { v: v as u32 });
+                            self.disk.marker(Marker::Other(v as u32));
+                            // later write attempts must be refused until the database is reopened
+                            if let Some(db) = self.db.as_ref() {
+                                if db.begin_write().is_ok() {
+                                    self.viol("C08", "write-after-error", "begin_write() succeeded after commit() had reported a storage error".into());
+                                } else {
+                                    self.stats.refused_after_error += 1;
+                                }
+                            }
+                            // which of the two states later reads see is not determined: stop here
+                            self.dead_end = true;
                         }
                         self.abort_baseline = None;
                     }
